@@ -149,6 +149,9 @@ def expect_construct(t, Lname, res, acc, mode, extra=None):
         if not top_ok(obj, Lname):
             acc.violation('constructed-in-wrong-language', case, Lname, lib.lang_of(obj))
             return None
+        if not lib.all_same_lang(obj, Lname):
+            acc.violation('constructed-with-nodes-of-another-language', case, Lname, 'mixed classes')
+            return None
         return obj
     if res[1] == 'NotInAlphabet':
         if member:
@@ -192,6 +195,21 @@ def check_tree(t, acc, Kl, do_mc=True):
                 acc.ev(1, nontriv)
                 res = call(lambda: getattr(L, lib.OP2CLASS[t[0]])(*rops[1]))
                 expect_construct(t, Lname, res, acc, 'foreign-operands', {'operand_lang': Mname})
+                if len(t) < 3:
+                    continue
+                # operand lists that mix the two languages: native operand(s) first and foreign ones after,
+                # and the other way round
+                for native_first in (True, False):
+                    nat = [(i == 0) == native_first for i in range(len(t) - 1)]
+                    if not all(members.MEMBER[Lname](x) for x, n_ in zip(t[1:], nat) if n_):
+                        continue
+                    rmix = call(lambda: [lib.build(x, L if n_ else M) for x, n_ in zip(t[1:], nat)])
+                    if rmix[0] != 'ok':
+                        continue
+                    acc.ev(1, nontriv)
+                    res = call(lambda: getattr(L, lib.OP2CLASS[t[0]])(*rmix[1]))
+                    expect_construct(t, Lname, res, acc, 'mixed-operands',
+                                     {'operand_lang': Mname, 'native_first': native_first})
     # cast_to
     for Mname, obj in objs.items():
         for Lname in LANGS:
@@ -322,7 +340,12 @@ def run_shard(shard, tier, seed, acc):
                 lambda q: ('and', Ff, q), lambda q: ('and', q, Ff), lambda q: ('and', Pp, Ff, q),
                 lambda q: ('or', Pp, q, Tt), lambda q: ('U', q, Tt), lambda q: ('U', Tt, q), lambda q: ('R', Ff, q),
                 lambda q: ('G', ('imp', Ff, q)), lambda q: ('not', ('and', Ff, q)), lambda q: ('F', ('or', Tt, q)),
-                lambda q: ('X', ('imp', ('not', Tt), q))]
+                lambda q: ('X', ('imp', ('not', Tt), q)),
+                # ... and where a simplifier could cancel the offender against itself
+                lambda q: ('or', q, ('not', q)), lambda q: ('or', ('not', q), q), lambda q: ('or', Pp, ('not', q), q),
+                lambda q: ('and', q, ('not', q)), lambda q: ('imp', q, q), lambda q: ('and', q, q),
+                lambda q: ('not', ('or', ('not', q), q)), lambda q: ('G', ('or', q, ('not', q))),
+                lambda q: ('U', q, q), lambda q: ('R', ('not', q), q)]
         for q in offenders['LTL']:
             for cx in ctxs:
                 t = ('A', cx(q))
@@ -343,6 +366,24 @@ def run_shard(shard, tier, seed, acc):
                                 acc.violation('modelcheck-accepts-non-member-lazily',
                                               {'tree': spaces.to_jsonable(t), 'tree_str': spaces.fstr(t),
                                                'checker': 'LTL', 'mode': mode, 'F': repr(F)}, 'TypeError', res[:2])
+        # the offender next to an atom spelled like its printed form (known finding D17 when the neutral
+        # spelling is rejected as it should be)
+        for q in offenders['LTL']:
+            name = str(lib.build(q, lib.CTLS))
+            for shape in (lambda a: ('or', q, a), lambda a: ('and', q, a), lambda a: ('or', a, q),
+                          lambda a: ('imp', q, a), lambda a: ('or', Pp, q, a)):
+                t = ('A', shape(('ap', name)))
+                res = call(lib.LTL.modelcheck, Kl, lib.build(t, lib.CTLS))
+                acc.ev(1, 1)
+                if res[0] == 'exc' and res[1] == 'TypeError':
+                    continue
+                case = {'tree': spaces.to_jsonable(t), 'tree_str': spaces.fstr(t), 'checker': 'LTL',
+                        'mode': 'object', 'atom_named_like_subformula': name}
+                neutral = call(lib.LTL.modelcheck, Kl, lib.build(('A', shape(('ap', 'zz'))), lib.CTLS))
+                if res[0] == 'ok' and neutral[0] == 'exc' and neutral[1] == 'TypeError':
+                    acc.finding('D17', case, 'TypeError', res[:2])
+                else:
+                    acc.violation('modelcheck-accepts-non-member-lazily', case, 'TypeError', res[:2])
         # rejected constructions / casts must raise TypeError whatever the atoms are called
         for nm in ('{', '}', '{q}', '{0}', '%s', '%(x)s', '{req,ack}', 'p' * 200, '', ' ', '\\', "it's"):
             ap = lambda L_: L_.AtomicProposition(nm)
@@ -410,6 +451,10 @@ def replay(art):
     acc = Acc()
     if 'bad_index' in c:
         run_shard(['nonkripke'], 'quick', 0, acc)
+    elif art['kind'].startswith('finding:'):
+        run_shard(['lazy'], 'quick', 0, acc)
+        fid = sorted(acc.d['findings'])[0] if acc.d['findings'] else None
+        return {'violates': acc.d['nviol'] > 0 or fid is not None, 'finding': None if acc.d['nviol'] else fid}
     elif art['kind'] == 'modelcheck-accepts-non-member-lazily':
         run_shard(['lazy'], 'quick', 0, acc)
     else:
